@@ -148,6 +148,14 @@ def build_harness():
     _built = True
 
 
+def rule_hook_present():
+    try:
+        with open(os.path.join(REPO, "src", "verif.rs")) as f:
+            return "RuleVisit" in f.read()
+    except OSError:
+        return False
+
+
 def scratch():
     return tempfile.mkdtemp(prefix="wv-", dir=cache_dir("tmp"))
 
